@@ -13,7 +13,7 @@ MUTANTS = [
     {"id": "c06-prefix-appended", "expect": "fire", "edits": [(G, "self._sort_items = sort_prefix + self._sort_items", "self._sort_items = self._sort_items + sort_prefix")]},
     {"id": "c06-list-all-commits", "expect": "fire", "edits": [(G, "            for rcommit in sorted(self.rcommits.values(), key=lambda c: -c.iid)\n            if rcommit.is_explicit]", "            for rcommit in sorted(self.rcommits.values(), key=lambda c: -c.iid)]")]},
     {"id": "c06-formatter-raw-commits", "expect": "fire", "edits": [(G, "        for rc in rbuild.get_printable_rcommits():", "        for rc in rbuild.rcommits.values():")]},
-    {"id": "c06-not-merged-all", "expect": "fire", "edits": [(G, "            if rcommit.is_explicit and iid not in all_commits_in_this_branch", "            if iid not in all_commits_in_this_branch")]},
+    {"id": "c06-not-merged-all", "expect": "fire", "edits": [(G, "            if rcommit.is_explicit\n            and iid not in all_commits_in_this_branch", "            if iid not in all_commits_in_this_branch")]},
     {"id": "c06-predicate-first-line", "expect": "fire", "edits": [(G, "        search_predicate = lambda commit: search_text in commit.message\n", "        search_predicate = lambda commit: search_text.lower() in commit.message\n")]},
     {"id": "c06-explicit-from-parent", "expect": "fire", "edits": [(G, "                cur_commit, search_predicate(cur_commit),", "                cur_commit, search_predicate(cur_commit) or prev_accumdat.selected_explicitely,")]},
     # neutral
@@ -35,4 +35,7 @@ MUTANTS = [
                     for rc in repo_cache.visited_commits[comm_hex]:
                         if rc not in prev_accumdat.rc_parents:
                             prev_accumdat.rc_parents.append(rc)""")]},
+    {"id": "c06-not-merged-ignores-head-reach", "expect": "fire", "edits": [(G, "            and iid not in all_commits_in_this_branch\n            and iid not in reachable_from_head\n", "            and iid not in all_commits_in_this_branch\n")]},
+    {"id": "c06-not-merged-direct-parents-only", "expect": "fire", "edits": [(G, "                reachable_from_head.add(rc.iid)\n                rc_stack.extend(rc.parents)\n", "                reachable_from_head.add(rc.iid)\n")]},
+    {"id": "c06-n-reach-set-renamed", "expect": "silent", "edits": [(G, "reachable_from_head", "head_closure", 4)]},
 ]
